@@ -46,10 +46,10 @@ def field_writes_of(f, owners):
     return out
 
 
-def reset_sets(P, K):
+def reset_sets(P, K, boundary=BOUNDARY):
     owners = [K, CONN]
     fns = [f for f in P.fns.values() if f.brecord in owners or (f.brecord or '').startswith(K + '::') or (f.brecord or '').startswith(CONN + '::')]
-    start = [f for f in fns if f.short in BOUNDARY and f.brecord in owners]
+    start = [f for f in fns if f.short in boundary and f.brecord in owners]
     seen, stack, R = set(), list(start), {}
     while stack:
         f = stack.pop()
@@ -76,7 +76,8 @@ def reset_rule(ctx, P, R, side):
     total = 0
     for K in (HTTP, FC):
         short = K.rsplit('::', 1)[-1]
-        Pset, Rset, start = reset_sets(P, K)
+        # output-side state may also be re-initialised by set_response_headers(), which runs at the start of every response
+        Pset, Rset, start = reset_sets(P, K, BOUNDARY if side == 'input' else BOUNDARY + ('set_response_headers',))
         if not start or len(Pset) < 15:
             raise AnalysisBroken('%s: boundary functions / per-request fields of %s not found (%d fields)' % (R, short, len(Pset)))
         # the keep-alive turn really runs the boundary code
